@@ -103,6 +103,8 @@ def run(ctx):
     except Exception as e:
         ctx.anchor_missing(r_valid, str(e))
 
+    exist_rule(ctx, Syn_(ctx))
+
     # ---------------- loops consume input
     r_loop = ctx.rule("C19.LOOP", "every loop in loader-reachable code advances an iterator / reader on each iteration")
     n_loops = 0
@@ -152,3 +154,45 @@ def run(ctx):
                 else:
                     r_loop.unknown += 1
     ctx.floor(r_loop, n_loops, 40, "loops")
+
+
+# ---------------------------------------------------------------------- EXIST
+def exist_rule(ctx, syn):
+    """AnnotationStore::selector() turns identifiers from the input into handles that are stored in the
+    annotation.  A handle may be stored only if the item it names was fetched (`self.get(..)`): the bare id
+    resolution (`to_handle` / `resolve_id`) maps a temporary id such as "!A3000000" to handle 3000000 without
+    looking at the store, and the reverse indices are then resized to that number."""
+    from synq import Syn, walk, find, unparse, strip, pat_names
+    r = ctx.rule("C19.EXIST", "every handle AnnotationStore::selector() stores in a Selector comes from an item fetched from the store, never from bare id resolution")
+    fl = [f for f in syn.fns if f.name == "selector" and (f.self_ty or "") == "AnnotationStore" and f.file == "src/annotationstore.rs" and f.body is not None]
+    if len(fl) != 1:
+        ctx.anchor_missing(r, "fn AnnotationStore::selector")
+        return
+    f = fl[0]
+    ctx.functions_analysed.add(f.qual)
+    tainted = {}
+    for nd in walk(f.body):
+        if nd.get("k") == "let" and nd.get("init") is not None:
+            src = unparse(nd["init"])
+            if re.search(r"\.to_handle\(|resolve_id\(|resolve_temp_id\(", src) and not re.search(r"\.get\(|\.get_mut\(", src):
+                for nm in pat_names(nd["pat"]):
+                    tainted[nm] = nd.get("l")
+    n = 0
+    for c in find(f.body, "call"):
+        fn = unparse(c["func"])
+        if not re.fullmatch(r"Selector::\w+Selector", fn):
+            continue
+        n += 1
+        r.hit("%s#%d" % (fn, n))
+        for a in c["args"]:
+            used = [x["path"][0] for x in walk(a) if x.get("k") == "path" and len(x["path"]) == 1]
+            direct = re.search(r"\.to_handle\(|resolve_id\(", unparse(a))
+            bad = [u for u in used if u in tainted]
+            if bad or direct:
+                ctx.report(r, "%s|unfetched" % fn, "selector() stores a handle in %s that comes from bare id resolution (`%s`) instead of an item fetched with self.get(..): an input that names a non-existent temporary id is accepted, the handle dangles and sizes the reverse indices" % (fn, bad[0] if bad else "to_handle"), f.file, c.get("l"))
+    ctx.floor(r, n, 6, "Selector constructions in selector()")
+
+
+def Syn_(ctx):
+    from synq import Syn
+    return Syn(ctx.facts.syn())
